@@ -17,12 +17,13 @@ def main():
     ap.add_argument("--dir", default=os.path.join(HERE, "seeded"))
     ap.add_argument("--props", default="")
     ap.add_argument("--seed", default="1")
+    ap.add_argument("--exact", action="store_true")
     a = ap.parse_args()
     base = "/dev/shm" if os.path.isdir("/dev/shm") else tempfile.gettempdir()
     rows = []
     for name in sorted(os.listdir(a.dir)):
         d = os.path.join(a.dir, name)
-        if a.k not in name or not os.path.exists(os.path.join(d, "patch.diff")):
+        if (a.exact and a.k != name) or a.k not in name or not os.path.exists(os.path.join(d, "patch.diff")):
             continue
         meta = json.load(open(os.path.join(d, "meta.json")))
         if meta.get("excluded") and not a.props:
